@@ -8,9 +8,10 @@ confirm = sys.argv[4]
 detects = sys.argv[5:]
 dst = os.path.join('/verif/seeded', name)
 os.makedirs(dst, exist_ok=True)
-shutil.copy(os.path.join(src, 'patch.diff'), os.path.join(dst, 'patch.diff'))
+if os.path.abspath(src) != os.path.abspath(dst):
+    shutil.copy(os.path.join(src, 'patch.diff'), os.path.join(dst, 'patch.diff'))
 demo = os.path.join(src, 'zz_seed_demo_test.go')
-if os.path.exists(demo):
+if os.path.exists(demo) and os.path.abspath(src) != os.path.abspath(dst):
     shutil.copy(demo, os.path.join(dst, 'zz_seed_demo_test.go.txt'))
 meta = {}
 try:
